@@ -254,8 +254,6 @@ def listedOk : Bool :=
           | .raises => o.touch == .none) &&
         mb.outcomes.any (fun o => o.exit == .returns)
 
-theorem listedOk_true : listedOk = true := by decide +kernel
-
 /-- (table, path-sensitive) for every entity kind and every listed attribute that the kind has, the
 definition Python resolves is a setter / method in which **every path that returns normally has run
 the auto-update idiom on the object itself** — an early `return` that skips the idiom, or an idiom
@@ -267,7 +265,7 @@ theorem C19_listed_setters_touch_self (k : Kind) (m : Mem) (hm : m ∈ listed) (
     (mb.kind = .setter ∨ mb.kind = .method) ∧
     (∀ o ∈ mb.outcomes, o.exit = .returns → o.touch = .self) ∧
     (∃ o ∈ mb.outcomes, o.exit = .returns) := by
-  have hall := listedOk_true
+  have hall : listedOk = true := by decide +kernel
   simp only [listedOk, List.all_eq_true] at hall
   have := hall k (Kind.mem_all k) m hm
   rw [h] at this
@@ -284,7 +282,7 @@ exception — has not run the idiom before: nothing after the idiom can still re
 theorem C19_listed_refusal_unstamped (k : Kind) (m : Mem) (hm : m ∈ listed) (mb : Member)
     (h : resolve k.cls m = some mb) :
     ∀ o ∈ mb.outcomes, o.exit = .raises → o.touch = .none := by
-  have hall := listedOk_true
+  have hall : listedOk = true := by decide +kernel
   simp only [listedOk, List.all_eq_true] at hall
   have := hall k (Kind.mem_all k) m hm
   rw [h] at this
